@@ -30,7 +30,7 @@ RULE = ('A: include trees (all ordered rooted tree shapes up to N files + repeat
 ASSUMPTIONS = ['in-memory readers registered after the two default readers', 'scratch directory created per run and removed']
 WITNESSES = ['later_binding_overrides_across_include', 'binding_after_include_wins', 'depth3', 'tree_mirrored',
              'imports_per_file', 'missing_include_ioerror', 'location_order', 'reader_order_within_location',
-             'absolute_bypasses', 'package_relative', 'namespace_package_location', 'namespace_package_two_portions', 'reparse_after_failure', 'unreadable_include_is_an_error_when_lenient', 'module_is_not_a_directory', 'missing_nested_include_aborts', 'files_then_bindings_then_finalize',
+             'absolute_bypasses', 'package_relative', 'namespace_package_location', 'namespace_package_two_portions', 'location_name_joined_verbatim', 'reparse_after_failure', 'unreadable_include_is_an_error_when_lenient', 'module_is_not_a_directory', 'missing_nested_include_aborts', 'files_then_bindings_then_finalize',
              'finalize_disabled', 'unknown_default_error', 'real_files', 'repeated_inclusion', 'second_resolution_fresh', 'location_registered_twice']
 
 MEM1, MEM2 = {}, {}
@@ -571,6 +571,39 @@ def run_special_case(case, res):
                       (desc, skip, out, r), desc)
       else:
         res.w('unreadable_include_is_an_error_when_lenient')
+    elif kind in ('location_with_double_slash', 'symlinked_location_dotdot'):
+      # the name offered to the readers is location + '/' + name exactly as written: no textual "normalisation"
+      if kind == 'location_with_double_slash':
+        os.makedirs(os.path.join(base, 'fallback'))
+        with open(os.path.join(base, 'fallback', 'base.gin'), 'w') as fh:
+          fh.write("c14.f.x = 'fallback directory'\n")
+        gin.add_config_file_search_path('mem://store/cfg')
+        gin.add_config_file_search_path(os.path.join(base, 'fallback'))
+        MEM1['mem://store/cfg/base.gin'] = "c14.f.x = 'remote store'\ninclude 'mem://store/cfg/extra.gin'\n"
+        MEM1['mem://store/cfg/extra.gin'] = "c14.f.y = 'remote extra'\n"
+        name, want = 'base.gin', ('remote store', 'remote extra')
+      else:
+        os.makedirs(os.path.join(base, 'releases', 'v2', 'conf'))
+        os.makedirs(os.path.join(base, 'deploy'))
+        with open(os.path.join(base, 'releases', 'v2', 'common.gin'), 'w') as fh:
+          fh.write("c14.f.x = 'release common'\n")
+        with open(os.path.join(base, 'deploy', 'common.gin'), 'w') as fh:
+          fh.write("c14.f.x = 'decoy next to the link'\n")
+        with open(os.path.join(base, 'releases', 'v2', 'conf', 'main.gin'), 'w') as fh:
+          fh.write("include '../common.gin'\nc14.f.y = 'main'\n")
+        os.symlink(os.path.join(base, 'releases', 'v2', 'conf'), os.path.join(base, 'deploy', 'current'))
+        gin.add_config_file_search_path(os.path.join(base, 'deploy', 'current'))
+        name, want = 'main.gin', ('release common', 'main')
+      try:
+        gin.parse_config_file(name)
+        r = F()
+        got = (r[0], r[1])
+      except Exception as e:  # pylint: disable=broad-except
+        got = 'raised %r' % (e,)
+      if got != want:
+        res.violation('resolution_order', '%r: got %r, expected %r' % (desc, got, want), desc)
+      else:
+        res.w('location_name_joined_verbatim')
     elif kind in ('module_as_directory', 'builtin_module_as_directory'):
       # the directory part of a package-relative name must be a package: a plain module (or a built-in one) has no
       # directory of its own, so nothing can be read "inside" it
@@ -638,7 +671,7 @@ SPECIALS = ['absolute_present', 'absolute_missing', 'package_regular', 'package_
             'namespace_location_later', 'namespace_location_present', 'namespace_two_portions_first',
             'namespace_two_portions_second', 'namespace_two_portions_include', 'earlier_copy_missing_include',
             'earlier_reader_missing_include', 'module_as_directory', 'builtin_module_as_directory',
-            'reparse_after_failed_include', 'reparse_after_semantic_error', 'unreadable_include_lenient_true',
+            'location_with_double_slash', 'symlinked_location_dotdot', 'reparse_after_failed_include', 'reparse_after_semantic_error', 'unreadable_include_lenient_true',
             'unreadable_include_lenient_list', 'unreadable_include_lenient_nested', 'unreadable_include_lenient_string']
 
 
